@@ -218,6 +218,7 @@ func (e *Engine) globalObj(st *State, g *ssa.Global) *Obj {
 	}
 	elem := g.Type().(*types.Pointer).Elem()
 	o := st.NewObj("global:"+g.Name(), elem, 1)
+	o.glob = true
 	e.globals[g] = o
 	return o
 }
